@@ -17,43 +17,35 @@ type FirewallRule struct {
 	ToService   string
 }
 
-func buildComp(field string, pattern string) CompareFunc {
+func buildComp(field string, pattern string) (CompareFunc, error) {
 	if pattern == "" {
-		return nil
+		return nil, nil
 	}
-	var comp CompareFunc
 	if strings.HasPrefix(pattern, "/") {
-		comp, _ = regexCompare(field, pattern)
-	} else {
-		comp, _ = stringCompare(field, pattern)
+		return regexCompare(field, pattern)
 	}
 
-	return comp
+	return stringCompare(field, pattern)
 }
 
-func (fr FirewallRule) BuildComps() []CompareFunc {
+func (fr FirewallRule) BuildComps() ([]CompareFunc, error) {
 	var comps []CompareFunc
-	fnc := buildComp("fromnode", fr.FromNode)
-	if fnc != nil {
-		comps = append(comps, fnc)
+	for _, fp := range []struct{ field, pattern string }{
+		{"fromnode", fr.FromNode},
+		{"tonode", fr.ToNode},
+		{"fromservice", fr.FromService},
+		{"toservice", fr.ToService},
+	} {
+		comp, err := buildComp(fp.field, fp.pattern)
+		if err != nil {
+			return nil, fmt.Errorf("invalid %s: %s", fp.field, err)
+		}
+		if comp != nil {
+			comps = append(comps, comp)
+		}
 	}
 
-	tnc := buildComp("tonode", fr.ToNode)
-	if tnc != nil {
-		comps = append(comps, tnc)
-	}
-
-	fsc := buildComp("fromservice", fr.FromService)
-	if fsc != nil {
-		comps = append(comps, fsc)
-	}
-
-	tsc := buildComp("toservice", fr.ToService)
-	if tsc != nil {
-		comps = append(comps, tsc)
-	}
-
-	return comps
+	return comps, nil
 }
 
 // ParseFirewallRule takes a single string describing a firewall rule, and returns a FirewallRuleFunc function.
@@ -93,7 +85,10 @@ func (frd FirewallRuleData) ParseFirewallRule() (FirewallRuleFunc, error) {
 		}
 	}
 
-	comps := fr.BuildComps()
+	comps, err := fr.BuildComps()
+	if err != nil {
+		return nil, err
+	}
 	fwr, err := firewallRule(comps, fr.Action)
 	if err != nil {
 		return nil, err
@@ -173,10 +168,10 @@ func stringCompare(field string, value string) (CompareFunc, error) {
 }
 
 func regexCompare(field string, value string) (CompareFunc, error) {
-	if value[0] != '/' || value[len(value)-1] != '/' {
+	if len(value) < 2 || value[0] != '/' || value[len(value)-1] != '/' {
 		return nil, fmt.Errorf("regex not enclosed in //")
 	}
-	value = fmt.Sprintf("^%s$", value[1:len(value)-1])
+	value = fmt.Sprintf("^(?:%s)$", value[1:len(value)-1])
 	re, err := regexp.Compile(value)
 	if err != nil {
 		return nil, fmt.Errorf("regex failed to compile: %s", value)
